@@ -4,7 +4,7 @@
    update dict; the function is the fold of that step; and from a state where the spare list is the key list, one
    iteration yields exactly the model step `update1` that the C16 theorems are about. *)
 From Coq Require Import NArith Arith List Bool.
-From Pq Require Import Base.Bytes Impl.KV Impl.KVRead Impl.PyList Proofs.PyListProofs.
+From Pq Require Import Base.Bytes Proofs.BytesProofs Impl.KV Impl.KVRead Impl.PyList Proofs.PyListProofs Proofs.KVFoldProofs.
 From PqGen Require Import GenKV.
 Import ListNotations.
 
@@ -41,3 +41,21 @@ Theorem gen_kv_first_step_is_model : forall l kv,
   option_map fst (loop_body (l, map fst l) kv) = Some (update1 bytes_eqb l (enc1 kv)).
 Proof. intros l kv. rewrite gen_kv_loop_body_is_step. apply update1_keys_exact. Qed.
 Print Assumptions gen_kv_first_step_is_model.
+
+(* THE WHOLE FUNCTION: for every footer entry list (absent = empty; values possibly absent; keys possibly repeated) and every
+   update dict whose encoded keys are distinct, the regenerated function never raises and returns the model's update_kvo -
+   the function all C16 merge theorems (C16_kv_spec, _kv_others_keep_order, _read_after_update, _remove_valueless) are about. *)
+Lemma fold_left_map_enc {S} (f : S -> bytes * option (option bytes) -> S) (u : list (pstr * option pstr)) : forall s,
+  fold_left (fun acc kv => f acc (enc1 kv)) u s = fold_left f (map enc1 u) s.
+Proof. induction u as [|kv u IH]; intros s; [reflexivity|]. cbn. apply IH. Qed.
+
+Theorem gen_kv_function_is_model : forall kvm0 u, NoDup (map fst (enc_u u)) ->
+  update_custom_metadata kvm0 u = Some (update_kvo (match kvm0 with None => [] | Some l => l end) u).
+Proof.
+  intros kvm0 u Hnd. rewrite gen_kv_function_is_fold. cbv zeta.
+  set (l := match kvm0 with None => [] | Some l => l end).
+  rewrite (fold_left_map_enc (fun acc e => match acc with None => None | Some st => update1_keys bytes_eqb st e end)).
+  change (map enc1 u) with (enc_u u).
+  exact (fold_update1_keys_start _ _ bytes_eqb bytes_eqb_spec (enc_u u) l Hnd).
+Qed.
+Print Assumptions gen_kv_function_is_model.
